@@ -140,4 +140,21 @@ PROPS = {
         "trusted_base": ["Lean SHA-256/base64/IMF-date implementations (FIPS/RFC vectors proved by kernel evaluation; compared with Go's output on every case)", "hand transcription (trace replay)"],
         "assumptions": ["de-duplication theorem is for pages whose items all have a usable id (otherwise the code returns an error, which the replay also checks)"],
     },
+    "C03": {
+        "level": "proof",
+        "lean_modules": ["AV.Lemmas.HiddenProofs", "AV.Props.C03"],
+        "support_modules": ["AV.Spec.C20", "AV.Lemmas.HiddenProofs", "AV.Lemmas.JsonLemmas", "AV.Lemmas.LockRules", "AV.Lemmas.LockOps", "AV.Lemmas.LockProofs", "AV.Pub.Util", "AV.Pub.SideEffect", "AV.Pub.BaseActor"],
+        "theorems": [
+            "AV.noHidden_clear", "AV.strip_noHidden1", "AV.stripOne_clean",
+            "AV.Props.C03.runTrace_payloads", "AV.Props.C03.clean_of_ok", "AV.Props.C03.accepts", "AV.Props.C03.postOutbox",
+            "AV.Props.C03.send", "AV.Props.C03.inboxSideEffects", "AV.Props.C03.handler_body", "AV.Props.C03.handler",
+        ],
+        "translator_scope": [r"gen_lean", r"T2 failed"],
+        "runners": [{"args": ["pub-C03", "1200", "4", "outbox,send,inbox,get,outbox,send"], "timeout": 1500}],
+        "exhaustive": {"quick": False, "thorough": False},
+        "rule": "outbox POSTs and Sends of bare objects and of all activity types with random mixtures of to/bto/cc/bcc/audience (IRIs and embedded actors) on the activity and on 1..3 embedded objects, Social-only / Federating-only / both; inbox Follows answered automatically; handler values with bto/bcc at object depth 0..4; single faults. "
+                "Payload bytes and bodies are re-parsed and searched for bto/bcc members on the value and along its `object` property (a member named object on a type without that property is an uninterpreted extension member). non-trivial = something was delivered or served; distinct by scenario hash",
+        "trusted_base": ["hand transcription (trace replay each run)", "fakes snapshot payload bytes at call time"],
+        "assumptions": ["inbox forwarding re-sends a received activity unchanged and is not 'an activity that originated from this server's outbox'"],
+    },
 }
